@@ -19,9 +19,11 @@ ASSUMPTIONS = ["Python zlib produces valid raw-deflate streams of every block ty
 
 def plan(tier):
     if tier == "quick":
-        return [("debug", 12, dict(n=40, maxlen=256 << 10, lsan=False)), ("release", 4, dict(n=25, maxlen=256 << 10, lsan=False)), ("asan", 4, dict(n=14, maxlen=128 << 10, lsan=True))]
+        return [("debug", 12, dict(n=40, maxlen=256 << 10, lsan=False)), ("release", 4, dict(n=25, maxlen=256 << 10, lsan=False)), ("asan", 4, dict(n=14, maxlen=128 << 10, lsan=True)),
+                ("memcheck", 4, dict(n=5, maxlen=24000, lsan=False, far=0, small=True))]
     return [("debug", 16, dict(n=380, maxlen=1 << 20, lsan=False)), ("release", 8, dict(n=200, maxlen=1 << 20, lsan=False)),
-            ("asan", 8, dict(n=120, maxlen=512 << 10, lsan=True)), ("miri", 16, dict(n=2, maxlen=6000, lsan=False, far=0, small=True))]
+            ("asan", 8, dict(n=120, maxlen=512 << 10, lsan=True)), ("miri", 16, dict(n=2, maxlen=6000, lsan=False, far=0, small=True)),
+            ("memcheck", 8, dict(n=40, maxlen=128 << 10, lsan=False, far=0, small=True))]
 
 
 EDGES = [0, 1, 2, 127, 128, 129, 15999, 16000, 16001, 31999, 32000, 32001]
